@@ -593,7 +593,7 @@ OPS3 = ["deriveFields", "deriveFields", "deriveMetadataFn", "deriveMetadataFn", 
 READER_OPS = ("wideRoundTrip", "longRoundTrip", "matrixRoundTrip", "arrayRoundTrip")
 
 
-def _csv_safe(t, scalar_only=False):
+def _csv_safe(t, scalar_only=False, same_fields=True):
     """inside the domain of the row model of the tabular forms (Model/Frame.lean, property C14): no empty
     strings (a CSV reads them as missing), detail values plain str / int / float, no key both in details and
     loss_details, slices still distinct once loss details are merged into details (long CSV), every cell has
@@ -630,8 +630,10 @@ def _csv_safe(t, scalar_only=False):
     if len(merged) != len(t.metadata):
         return False
     sizes = set()
-    if len({tuple(sorted(c.values)) for c in t.cells}) != 1:
-        return False            # every cell the same fields (a missing sample field comes back as an object array of None)
+    if same_fields and len({tuple(sorted(c.values)) for c in t.cells}) != 1:
+        # array frame / matrix: every cell the same fields. The wide / long CSV readers take ragged field sets since fix
+        # D24 (before it a missing sample field came back as an object array of None; `Frame.assembleField` follows)
+        return False
     for c in t.cells:
         if not c.values:
             return False
@@ -914,7 +916,7 @@ def make_op3(rng, t, k=None):
         return {"op": k, "b": w_cells(o.cells), "suffix": suffix}, lambda x: lpm(x, o, suffix=suffix)
     import bermuda as _b
     if k in READER_OPS:
-        if not _csv_safe(t, scalar_only=(k == "arrayRoundTrip")):
+        if not _csv_safe(t, scalar_only=(k == "arrayRoundTrip"), same_fields=k in ("arrayRoundTrip", "matrixRoundTrip")):
             return make_op3(rng, t, rng.choice(["deriveFields", "filterFn", "replaceFn"]))
         import tempfile as _tf
         fields = sorted({f for c in t.cells for f in c.values})
@@ -1416,6 +1418,10 @@ def correspondence(ctx):
                 cells = gen.rand_cells(rng, max_cells=12, layout=rng.choice(["regular", "ragged"]),
                                        n_slices=rng.choice([1, 1, 2, 3]), kind=rng.choice(["C", "U", "U", "I"]),
                                        vkind=rng.choice(["int", "float", "farr"]), fields=["paid_loss", "reported_loss"])
+            if reader in ("wideRoundTrip", "longRoundTrip") and rng.random() < 0.4:
+                # ragged field sets: some cells lose one of their fields
+                cells = [c.replace(values={k_: v_ for k_, v_ in c.values.items() if k_ != "reported_loss"})
+                         if rng.random() < 0.4 else c for c in cells]
             cells = [c.replace(metadata=_dc.replace(c.metadata, **{a: (getattr(c.metadata, a) or None) for a in
                                                                      ("country", "currency", "reinsurance_basis", "loss_definition")}))
                      for c in cells]
